@@ -880,6 +880,13 @@ Definition check_group_time (pts : list N) (calls : list ocall) (tmo : option N)
           end
       | None => true
       end
+  | None, _ =>
+      (* Timeout only when a timeout was given: an un-timed multi_call reports a callee that
+         dropped the port or exited as SenderError, never as Timeout *)
+      match g with
+      | GOk rs _ => forallb (fun r => match r with OTimeout => false | _ => true end) rs
+      | _ => true
+      end
   | _, _ => true
   end.
 
